@@ -204,8 +204,12 @@ func (x *extractor) enter(name, role string, held []string) error {
 
 type env struct {
 	vars map[string]string // local name -> struct name ("" unknown); "!S" = freshly constructed S
-	role string
-	f    *fn
+	// local name -> (struct, field): the local holds a map that IS the field's map or one of its
+	// values (x := s.f, x := s.f[k], x, ok := s.f[k]); the map outlives the lock region it was read in,
+	// so every later use of the local is an access to the field's data with the locks held THEN
+	alias map[string][2]string
+	role  string
+	f     *fn
 }
 
 func (x *extractor) walkFn(f *fn, role string, held []string) {
@@ -217,7 +221,7 @@ func (x *extractor) walkFn(f *fn, role string, held []string) {
 		return
 	}
 	x.visited[vk] = true
-	e := &env{vars: map[string]string{}, role: role, f: f}
+	e := &env{vars: map[string]string{}, alias: map[string][2]string{}, role: role, f: f}
 	if f.recvName != "" {
 		e.vars[f.recvName] = f.recv
 	}
@@ -507,7 +511,7 @@ func (x *extractor) stmt(st ast.Stmt, e *env, held []string) []string {
 			x.expr(s.Call, e, held, false)
 		}
 	case *ast.GoStmt:
-		ae := &env{vars: e.vars, role: "any", f: e.f}
+		ae := &env{vars: e.vars, alias: e.alias, role: "any", f: e.f}
 		if fl, ok := s.Call.Fun.(*ast.FuncLit); ok {
 			publishCaptured(fl, e)
 			x.block(fl.Body.List, ae, nil)
@@ -523,6 +527,26 @@ func (x *extractor) stmt(st ast.Stmt, e *env, held []string) []string {
 		}
 		for i, l := range s.Lhs {
 			if id, ok := l.(*ast.Ident); ok {
+				{
+					var rhs ast.Expr
+					if len(s.Rhs) == len(s.Lhs) {
+						rhs = s.Rhs[i]
+					} else if len(s.Rhs) == 1 && i == 0 {
+						rhs = s.Rhs[0]
+					}
+					if rhs != nil {
+						if st, f, ok := x.mapAlias(rhs, e); ok {
+							e.alias[id.Name] = [2]string{st, f}
+						} else if c, isCall := rhs.(*ast.CallExpr); isCall {
+							if fn, isId := c.Fun.(*ast.Ident); !isId || fn.Name != "make" {
+								delete(e.alias, id.Name)
+							}
+							// x = make(...) in the "not found" branch of a lookup: the local still stands for the field's data
+						} else {
+							delete(e.alias, id.Name)
+						}
+					}
+				}
 				if s.Tok == token.DEFINE || e.vars[id.Name] == "" {
 					var rhs ast.Expr
 					if len(s.Rhs) == len(s.Lhs) {
@@ -705,6 +729,10 @@ func (x *extractor) record(s, f string, write, atomic bool, e *env, held []strin
 func (x *extractor) expr(ex ast.Expr, e *env, held []string, write bool) {
 	switch t := ex.(type) {
 	case nil:
+	case *ast.Ident:
+		if a, ok := e.alias[t.Name]; ok {
+			x.record(a[0], a[1], write, false, e, held, t.Pos(), false)
+		}
 	case *ast.SelectorExpr:
 		s, fresh := x.resolve(t.X, e)
 		if s != "" {
@@ -804,7 +832,7 @@ func (x *extractor) call(c *ast.CallExpr, e *env, held []string) {
 		// time.AfterFunc(d, func) runs the callback on its own goroutine
 		if pk, ok := sel.X.(*ast.Ident); ok && pk.Name == "time" && sel.Sel.Name == "AfterFunc" && len(c.Args) == 2 {
 			x.expr(c.Args[0], e, held, false)
-			ae := &env{vars: e.vars, role: "any", f: e.f}
+			ae := &env{vars: e.vars, alias: e.alias, role: "any", f: e.f}
 			if fl, ok := c.Args[1].(*ast.FuncLit); ok {
 				publishCaptured(fl, e)
 				x.block(fl.Body.List, ae, nil)
@@ -831,6 +859,46 @@ func (x *extractor) call(c *ast.CallExpr, e *env, held []string) {
 	for _, a := range c.Args {
 		x.expr(a, e, held, false)
 	}
+}
+
+// mapAlias: does ex denote a map that belongs to a struct field — the field's own map (s.f) or one
+// of its values when the field is a map of maps (s.f[k])?
+func (x *extractor) mapAlias(ex ast.Expr, e *env) (string, string, bool) {
+	inner := false
+	if ix, ok := ex.(*ast.IndexExpr); ok {
+		ex, inner = ix.X, true
+	}
+	sel, ok := ex.(*ast.SelectorExpr)
+	if !ok {
+		return "", "", false
+	}
+	s, fresh := x.resolve(sel.X, e)
+	if s == "" || fresh {
+		return "", "", false
+	}
+	owner, t := x.field(s, sel.Sel.Name)
+	if owner == "" || !strings.HasPrefix(t, "map[") {
+		return "", "", false
+	}
+	if inner {
+		// value type of the outer map: skip the (possibly nested) key type
+		depth, k := 0, -1
+		for i, c := range t {
+			if c == '[' {
+				depth++
+			} else if c == ']' {
+				depth--
+				if depth == 0 {
+					k = i
+					break
+				}
+			}
+		}
+		if k < 0 || !strings.HasPrefix(t[k+1:], "map[") {
+			return "", "", false
+		}
+	}
+	return owner, sel.Sel.Name, true
 }
 
 func (x *extractor) method(s, name string) *fn {
